@@ -713,7 +713,8 @@ class HTMLConverter(PDFConverter[AnyIO]):
 
 
 class XMLConverter(PDFConverter[AnyIO]):
-    CONTROL = re.compile("[\x00-\x08\x0b-\x0c\x0e-\x1f]")
+    # control characters and noncharacters that may not occur in XML 1.0
+    CONTROL = re.compile("[\x00-\x08\x0b-\x0c\x0e-\x1f\ufffe\uffff]")
 
     def __init__(
         self,
